@@ -442,6 +442,10 @@ def read(
                     "Unable to convert netCDF to field construct(s) because "
                     "there is missing data."
                 )
+        finally:
+            # Make sure that every dataset that was opened is closed,
+            # also when the read has raised an exception
+            netcdf.file_close()
     elif cdl:
         raise IOError(
             f"Can't determine format of file {filename} "
